@@ -248,10 +248,12 @@ func (s *httpSrv) endStream() {
 }
 
 func validResult(method, name string) string {
-	if method == "tools/list" {
-		return resultBody(method, "valid")
-	}
-	return resultBody(method, "valid:"+name)
+	return resultBody(method, validMarker(method, name))
+}
+
+// isProbe: the one call of the script's probe method (every other call of a run is a tools/call with another name).
+func isProbe(m *rpcMsg, sc *Script) bool {
+	return m.Method == sc.ProbeMethod && (m.Method != "tools/call" || m.Params.Name == "probe")
 }
 
 // answer delivers a valid answer for a call: in the POST response (Streamable) or on the event stream (legacy).
@@ -306,11 +308,11 @@ func (s *httpSrv) rpc(c net.Conn, body []byte) {
 		s.waitFor(40*time.Second, func() bool { return s.probeDone || s.closed })
 		time.Sleep(5 * time.Millisecond)
 		s.answer(pc, &m, "pending")
-	case !s.probeTaken() && m.Method == s.sc.ProbeMethod && (m.Method == "tools/list" || m.Params.Name == "probe"):
+	case !s.probeTaken() && isProbe(&m, s.sc):
 		s.probe(c, &m)
 	default:
 		name := m.Params.Name
-		if m.Method == "tools/list" {
+		if isListMethod(m.Method) {
 			name = "list"
 		}
 		s.answer(c, &m, name)
